@@ -262,9 +262,36 @@ def run(ctx):
     ctx.check(ok, "GUARD", f"{init.qualname} / GUARD / mapping[k] = create_mapping(series[k], series[k+1]) or None on DifferentTissueException", ctx.where(init),
               "same key in the try and in the handler", "the per-step mapping is not create_mapping(series[k], series[k+1]) with None stored under the same key for incompatible frames")
 
+    # ------------------------------------------------------------------ the extent every radius and tolerance is a fraction of
+    ctx.clause("the search radius and the bounding-box tolerance are fractions of the tissue extent: the larger of the x-range and the y-range of the tracked junctions")
+    cmf = repo.func("forsys.time_series.TimeSeries.create_mapping")
+    scm = sym.summarize(repo, cmf.qualname)
+    ext = [e for e in scm.stores("maxcoord") if e.base == T.sym("self")]
+    if not ext:
+        raise AnalysisError("create_mapping: store of self.maxcoord not found - re-bind the anchor")
+    for e in ext:
+        v = e.value
+        ok = False
+        detail = T.show(T.alpha(v))[:160]
+        if v[0] == "call" and v[1] == "max" and len(v[2]) == 2:
+            def swap_xy(t):
+                return T.substitute(t, {x: T.attr(x[1], "y") for x in T.subterms(t) if x[0] == "attr" and x[2] == "x"})
+            a, b = v[2]
+            has_x = any(x[0] == "attr" and x[2] == "x" for x in T.subterms(a)) and not any(x[0] == "attr" and x[2] == "y" for x in T.subterms(a))
+            ok = has_x and T.alpha(swap_xy(a)) == T.alpha(b) and a[0] == "poly"
+            if not ok:
+                a, b = b, a
+                has_x = any(x[0] == "attr" and x[2] == "x" for x in T.subterms(a)) and not any(x[0] == "attr" and x[2] == "y" for x in T.subterms(a))
+                ok = has_x and T.alpha(swap_xy(a)) == T.alpha(b) and a[0] == "poly"
+        ctx.check(ok, "SIB", f"{cmf.qualname} / SIB / extent = max(x-range, y-range): the y-range is the x-range with y for x", ctx.where(cmf, e.node),
+                  "max(maxx - minx, maxy - miny) over the same junctions", f"the extent is {detail}: its two ranges are not the x- and y-twin of one expression "
+                  "(a range mixing a y-maximum with an x-minimum shrinks or inflates every search radius of a tissue that is not square)")
+
+
 
 _P = "forsys/time_series.py"
 PINNED = [
+    ("extent mixes the y-maximum with the x-minimum", "forsys/time_series.py", "self.maxcoord = max(maxx - minx, maxy - miny)", "self.maxcoord = max(maxx - minx, maxy - minx)"),
     ("every step gets the pairings of step 0", _P, "self.mapping[key] = self.create_mapping(t0, t1, self.initial_guess[key])", "self.mapping[key] = self.create_mapping(t0, t1, self.initial_guess[0])"),
     ("ForSys drops the user pairings", "forsys/forsys.py", "            self.mesh = ts.TimeSeries(self.frames, cm=self.cm, \n                                        initial_guess=self.initial_guess)", "            self.mesh = ts.TimeSeries(self.frames, cm=self.cm)"),
     ("injectivity guard dropped in the obverse search", _P, "            for v1 in pool.values():\n                # make the map inyective\n                if v1.id not in found:\n                    xcoord = (v1.x - v0.x)**2\n                    ycoord = (v1.y - v0.y)**2\n                    if xcoord + ycoord < maxspread**2:\n                        candidatesObverse.append(v1)",
